@@ -164,6 +164,21 @@ func apiRun(args []string) error {
 					a, e := b.p.Parse("fn", iotest.OneByteReader(strings.NewReader(s)), tr)
 					return render(a, e, raw)
 				})
+				// in-memory readers the caller has already read from: only what is left is the input (Size() / Len() of such a
+				// reader still count or once counted the bytes already gone)
+				guard("Parse(part-read strings.Reader)", func() string {
+					r := strings.NewReader("zz" + s)
+					_, _ = r.Read(make([]byte, 2))
+					a, e := b.p.Parse("fn", r, tr)
+					return render(a, e, raw)
+				})
+				guard("Parse(part-read bytes.Reader)", func() string {
+					r := bytes.NewReader([]byte("\x00(" + s))
+					_, _ = r.ReadByte()
+					_, _ = r.ReadByte()
+					a, e := b.p.Parse("fn", r, tr)
+					return render(a, e, raw)
+				})
 				guard("Parse(named reader)", func() string {
 					a, e := b.p.Parse("fn", namedReader{strings.NewReader(s), "other.txt"}, tr)
 					return render(a, e, raw)
@@ -241,6 +256,10 @@ func apiRun(args []string) error {
 				emit("def.Lex", defKey(t1, e1))
 				t1b, e1b := lexAll(d.Lex("fn", iotest.DataErrReader(strings.NewReader(s))))
 				emit("def.Lex(DataErrReader)", defKey(t1b, e1b))
+				pr := strings.NewReader("zz" + s)
+				_, _ = pr.Read(make([]byte, 2))
+				t1c, e1c := lexAll(d.Lex("fn", pr))
+				emit("def.Lex(part-read reader)", defKey(t1c, e1c))
 				if sd, ok := d.(lexer.StringDefinition); ok {
 					t2, e2 := lexAll(sd.LexString("fn", s))
 					emit("def.LexString", defKey(t2, e2))
